@@ -640,10 +640,27 @@ impl World {
                     // the event is stamped before the drop so that wake-ups caused by
                     // the drop follow it in the trace
                     self.push(Ev::RefDrop { run, id });
+                    let by_unwinding = {
+                        let runs = self.runs.borrow();
+                        runs[run].spec.unwind_drop_mask & (1 << (id % 8)) != 0
+                    };
                     if self.polling.get().is_some() {
                         // inside a poll: a panic unwinds through the library into the
                         // driver's catch_unwind
                         drop(fnref);
+                    } else if by_unwinding {
+                        // user code panics while it holds the FnRef; the panic is caught at
+                        // a task boundary.  (resume_unwind: no panic hook, real unwinding.)
+                        self.fire("ref_dropped_by_unwinding");
+                        let r = std::panic::catch_unwind(std::panic::AssertUnwindSafe(move || {
+                            let _held = fnref;
+                            std::panic::resume_unwind(Box::new(UserPanic));
+                        }));
+                        if let Err(p) = r {
+                            if !p.is::<UserPanic>() {
+                                self.push(Ev::Panic { run, msg: "in FnRef::drop during unwinding".to_string() });
+                            }
+                        }
                     } else if let Err(p) = std::panic::catch_unwind(std::panic::AssertUnwindSafe(move || drop(fnref))) {
                         let msg = if let Some(s) = p.downcast_ref::<&str>() {
                             s.to_string()
@@ -697,6 +714,9 @@ impl World {
         unsafe { Waker::from_raw(RawWaker::new(Arc::into_raw(data) as *const (), &VTABLE)) }
     }
 }
+
+/// payload of the simulated user panic
+struct UserPanic;
 
 // ---------------------------------------------------------------------------
 // Raw waker: lets the simulator see clone / wake / drop.
